@@ -129,7 +129,7 @@ def check_case(case, rec=None, model="memory"):
     return ir.compare_grads(exp, run)
 
 
-N = {"quick": 450, "thorough": 3000}
+N = {"quick": 900, "thorough": 5400}
 
 
 def shard_plan(tier):
